@@ -169,14 +169,45 @@ static uint64_t value_work(int tid, Rng& r, bool yields) {
   d = hash_combine(d, nop::SipHash::Compute(nop::BlockReader<uint8_t>(buf, sizeof buf), r.next(), (uint64_t)tid));
   return d;
 }
-// FdWriter / FdReader on the thread's own descriptors (memfd): many single-byte and block transfers
+// FdWriter / FdReader on the thread's own descriptors (memfd): many single-byte and block transfers.
+// Monitor over the process's descriptor table (the one piece of state every reader/writer shares with every other thread): each thread claims the
+// descriptor numbers it obtains and gives the claim up just before the object owning the descriptor is destroyed. A number handed out by the kernel
+// while another thread still claims it, or a claimed descriptor that is no longer open, means some object closed a descriptor it did not own.
+static std::atomic<int> g_fd_owner[4096];
+static std::atomic<uint64_t> g_fd_claims{0};
+static std::string g_fd_fault; static std::mutex g_fd_fault_mu;
+static void fd_fault(const std::string& m) { std::lock_guard<std::mutex> lk(g_fd_fault_mu); if (g_fd_fault.empty()) g_fd_fault = m; }
+static int fd_claim(int fd, int tid) { if (fd < 0 || fd >= 4096) return fd; int prev = g_fd_owner[fd].exchange(tid + 1); g_fd_claims.fetch_add(1, std::memory_order_relaxed);
+  if (prev != 0) fd_fault(fmt("descriptor %d was handed to thread %d while thread %d still owns it: it was closed behind its owner's back", fd, tid, prev - 1)); return fd; }
+static void fd_unclaim(int fd, int tid) { if (fd < 0 || fd >= 4096) return; if (fcntl(fd, F_GETFD) < 0) fd_fault(fmt("descriptor %d owned by thread %d is no longer open: another object closed it", fd, tid));
+  int prev = g_fd_owner[fd].exchange(0); if (prev != tid + 1) fd_fault(fmt("descriptor %d owned by thread %d was re-issued to thread %d in the meantime", fd, tid, prev - 1)); }
 static uint64_t fd_work(int tid, Rng& r, bool yields) {
-  uint64_t d = 0; int fd = memfd_create("vfmt", 0); if (fd < 0) return 0;
-  { nop::FdWriter w(::dup(fd)); size_t n = 20 + r.below(200); for (size_t i = 0; i < n; i++) { (void)w.Write((uint8_t)(i * 7 + (size_t)tid)); if (i % 64 == 0) boundary(tid, r, yields); }
-    uint32_t blk[8]; for (auto& x : blk) x = (uint32_t)r.next(); (void)w.Write(blk, blk + 8); d = hash_combine(d, n); }
+  uint64_t d = 0; int fd = fd_claim(memfd_create("vfmt", 0), tid); if (fd < 0) return 0;
+  const unsigned form = (unsigned)r.below(3);
+  size_t n = 20 + r.below(200); uint32_t blk[8]; for (auto& x : blk) x = (uint32_t)r.next();
+  if (form == 0) { int wfd = fd_claim(::dup(fd), tid); nop::FdWriter w(wfd); for (size_t i = 0; i < n; i++) { (void)w.Write((uint8_t)(i * 7 + (size_t)tid)); if (i % 64 == 0) boundary(tid, r, yields); }
+    (void)w.Write(blk, blk + 8); fd_unclaim(wfd, tid); }
+  else {   // the writer handed over by value: moved into a Serializer (form 1) or into another writer (form 2); the moved-from object outlives the new owner
+    int wfd = fd_claim(::dup(fd), tid); nop::FdWriter outer(wfd);
+    if (form == 1) { nop::Serializer<nop::FdWriter> ser{std::move(outer)}; for (size_t i = 0; i < n; i++) { (void)ser.writer().Write((uint8_t)(i * 7 + (size_t)tid)); if (i % 64 == 0) boundary(tid, r, yields); } (void)ser.writer().Write(blk, blk + 8); fd_unclaim(wfd, tid); }
+    else { nop::FdWriter w(std::move(outer)); for (size_t i = 0; i < n; i++) { (void)w.Write((uint8_t)(i * 7 + (size_t)tid)); if (i % 64 == 0) boundary(tid, r, yields); } (void)w.Write(blk, blk + 8); fd_unclaim(wfd, tid); }
+    boundary(tid, r, yields); if (yields) std::this_thread::yield();         // other threads obtain descriptors here; `outer` is destroyed afterwards
+    boundary(tid, r, yields);
+  }
+  d = hash_combine(d, n);
   ::lseek(fd, 0, SEEK_SET);
-  { nop::FdReader rd(::dup(fd)); uint8_t b = 0; uint64_t h = 0; while (rd.Read(&b)) { h = hash_combine(h, b); } d = hash_combine(d, h); }
-  ::close(fd);
+  uint64_t h = 0; size_t got = 0;
+  if (form == 0) { int rfd = fd_claim(::dup(fd), tid); nop::FdReader rd(rfd); uint8_t b = 0; while (rd.Read(&b)) { h = hash_combine(h, b); got++; if (got % 64 == 0) boundary(tid, r, yields); } fd_unclaim(rfd, tid); }
+  else {
+    int rfd = fd_claim(::dup(fd), tid); nop::FdReader outer(rfd);
+    if (form == 1) { nop::Deserializer<nop::FdReader> des{std::move(outer)}; uint8_t b = 0; while (des.reader().Read(&b)) { h = hash_combine(h, b); got++; if (got % 64 == 0) boundary(tid, r, yields); } fd_unclaim(rfd, tid); }
+    else { nop::FdReader rd(std::move(outer)); uint8_t b = 0; while (rd.Read(&b)) { h = hash_combine(h, b); got++; if (got % 64 == 0) boundary(tid, r, yields); } fd_unclaim(rfd, tid); }
+    boundary(tid, r, yields); if (yields) std::this_thread::yield();
+    boundary(tid, r, yields);
+  }
+  d = hash_combine(d, hash_combine(h, got));
+  if (got != n + sizeof blk) fd_fault(fmt("thread %d read %zu bytes back from its own file, wrote %zu", tid, got, n + sizeof blk));
+  fd_unclaim(fd, tid); ::close(fd);
   return d;
 }
 // process-wide state the library must not touch behind the caller's back: the SIGPIPE disposition installed by the application
@@ -223,6 +254,8 @@ int vf::engine_main() {
     if (!sigpipe_disposition_intact()) { rep().violation("C19:process-signal-disposition-changed", fmt("after a round of %d threads using their own readers/writers the process-wide SIGPIPE disposition is no longer the handler the application installed", N), cd);
       struct sigaction sa; sigemptyset(&sa.sa_mask); sa.sa_handler = &vf_sigpipe_handler; sa.sa_flags = SA_RESTART; sigaction(SIGPIPE, &sa, nullptr); }
     rep().count("c19_signal_disposition_audits");
+    { std::lock_guard<std::mutex> lk(g_fd_fault_mu); if (!g_fd_fault.empty()) { rep().violation("C19:descriptor-table:closed-by-a-foreign-object", fmt("round of %d threads, each with its own FdReader/FdWriter objects: %s", N, g_fd_fault.c_str()), cd); g_fd_fault.clear(); for (auto& o : g_fd_owner) o.store(0); } }
+    rep().count("c19_descriptor_claims_audited", g_fd_claims.exchange(0));
     rep().count("c19_rounds"); rep().count("c19_threads_run", (uint64_t)N * 2); rep().count("c19_operation_boundaries", nt);
     rep().note(hash_combine(sig, (uint64_t)round * 131 + (uint64_t)a.worker), N >= 2);
     for (int i = 0; i < N; i++) {
